@@ -129,7 +129,7 @@ def inherited_state(p):
 
 def strip_lines(lines):
   lines = [l for l in lines]
-  while lines and not any(not c[0].isspace() for c in lines[-1]):
+  while lines and not any(c[0] != " " for c in lines[-1]):
     lines.pop()
   return lines
 
@@ -182,7 +182,7 @@ def obs_cells(line):
   out = []
   gap = False
   for c in line:
-    if c[0].isspace():
+    if c[0] == " ":       # (U+00A0 is a character, not a gap)
       gap = True
     else:
       out.append((c, gap and bool(out)))
@@ -261,7 +261,7 @@ CANON = {alt: v[0] for v in G.LATIN_UPPER.values() for alt in v[1:]}
 
 
 def text_key(lines):
-  return "\n".join("".join(CANON.get(c[0], c[0]) for c in l if not c[0].isspace()) for l in lines)
+  return "\n".join("".join(CANON.get(c[0], c[0]) for c in l if c[0] != " ") for l in lines)
 
 
 def exp_key(lines):
@@ -494,7 +494,7 @@ def check_isd(desc, exp, doc, ctx, res):
           for p in div:
             if isinstance(p, model.P):
               lines = observe_flat(p, (G.WHITE, G.TRANSPARENT, False, False))
-              if any(not c[0].isspace() for l in lines for c in l):
+              if any(c[0] != " " for l in lines for c in l):
                 got.append(lines)
     want.sort(key=exp_key)
     got.sort(key=text_key)
